@@ -293,6 +293,36 @@ func ownBoundPorts() (map[string]bool, error) {
 	return out, nil
 }
 
+// ownBoundPortsStable: /proc/net/* is not read atomically - while other processes create and destroy sockets a line
+// can be skipped. The sockets of this process do not change while it is being observed, so two consecutive identical
+// snapshots are taken as the observation.
+func ownBoundPortsStable(onRetry func()) (map[string]bool, error) {
+	prev, err := ownBoundPorts()
+	if err != nil {
+		return nil, err
+	}
+	for i := 0; i < 8; i++ {
+		cur, err := ownBoundPorts()
+		if err != nil {
+			return nil, err
+		}
+		same := len(cur) == len(prev)
+		for k := range cur {
+			if !prev[k] {
+				same = false
+			}
+		}
+		if same {
+			return cur, nil
+		}
+		if onRetry != nil {
+			onRetry()
+		}
+		prev = cur
+	}
+	return prev, nil
+}
+
 // closedPort is a host port whose pod has been torn down by a successful DEL.
 type closedPort struct {
 	Key  string `json:"socket"`
